@@ -35,6 +35,7 @@ def dispatch (cmd : String) : Option (P String) :=
   | "c06.update" => some C06.update
   | "c08.fault" => some C08.fault
   | "c08.timeout" => some C08.timeout
+  | "c08.limiter" => some C08.limiter
   | "c10.store" => some C10.store
   | "c10.read" => some C10.read
   | "c10.combine" => some C10.comb
